@@ -41,7 +41,7 @@ class Case:
     """One trial kind at one shape: symbolic + numeric inputs, the real trial object, the spec bra."""
 
     def __init__(self, kind, norb, nel, nchol=1, ndets=2, seed=0, complex_trial=True, spin_dep=True, restricted=False,
-                 general_walker=True, nP=2, **opts):
+                 general_walker=True, nP=2, walker_partner=False, **opts):
         H.setup_repo()
         from ad_afqmc import wavefunctions as wf
         self.kind, self.norb, self.nel, self.nchol, self.ndets = kind, norb, tuple(nel), nchol, ndets
@@ -51,11 +51,12 @@ class Case:
         nu, nd = nel
         d = {}
         # ---- walkers (holomorphic symbols: the code never conjugates a walker)
+        wmode = True if walker_partner else "holo"
         if restricted:
-            d["w"] = inp.declare("w", (norb, nu), "holo")
+            d["w"] = inp.declare("w", (norb, nu), wmode)
         else:
-            d["wu"] = inp.declare("wu", (norb, nu), "holo")
-            d["wd"] = inp.declare("wd", (norb, nd), "holo")
+            d["wu"] = inp.declare("wu", (norb, nu), wmode)
+            d["wd"] = inp.declare("wd", (norb, nd), wmode)
         # ---- hamiltonian (real symbols)
         d["h0"] = inp.declare("h0", ())
         d["ha"] = inp.declare("ha", (2 if spin_dep else 1, norb, norb))
@@ -888,6 +889,23 @@ def auto_energy_lemma(norb, nu, nd, nchol=1, restricted=False):
 def obs_fock(kind, norb, nu, nd, what="energy", restricted=False, **kw):
     """C02.en.fock / C03.fb.fock: the energy / force-bias entry point, fully interpreted (no callee abstracted), equals
     <psi|H|phi>/<psi|phi> resp. <psi|L_g|phi>/<psi|phi> built on the Fock space from the same symbols."""
+    try:
+        return _obs_fock(kind, norb, nu, nd, what=what, restricted=restricted, **kw)
+    except Unsupported as e:
+        if "holomorphic" not in str(e):
+            raise
+        # the code conjugates / takes the real part of a walker-dependent quantity: decide with Wirtinger pairs for the walker
+        # (the result must still be holomorphic in the walker, i.e. independent of the conjugate symbols); doubling the walker
+        # symbols is expensive, so this is decided at the smallest shape of the kind
+        small = {"GCISD": (2, 1, 1)}.get(kind, (2, 1, 1) if not restricted else (2, 1, 1))
+        out = _obs_fock(kind, small[0], small[1], small[2], what=what, restricted=restricted, walker_partner=True, **kw)
+        for o in out:
+            o["detail"] = f"[non-holomorphic operation on the walker at the requested shape norb={norb},nel={nu}+{nd}: decided with conjugate " \
+                          f"walker symbols at the smallest shape] " + (o["detail"] or "")
+        return out
+
+
+def _obs_fock(kind, norb, nu, nd, what="energy", restricted=False, **kw):
     t0 = time.time()
     nel = (nu, nd)
     c = Case(kind, norb, nel, restricted=restricted, **kw)
